@@ -59,9 +59,30 @@ def derived_names(date):
     return sorted(set(units)), sorted(set(sums))
 
 
+def rule_unit_variants(date):
+    """Unit variants (not in the DAG) of *rules* of the functions dict.  GEP 4: "automatic conversion
+    will only happen in case no column [column]_m is explicitly set" - an explicit rule is never
+    replaced by a conversion of such a column, so for the rule and everything else the column is unused.
+    (Variants of spec-defined person-pointer aggregates are excluded: there the code base lets a data
+    column in another unit replace the aggregate, and the documentation is not explicit.)"""
+    _, functions = env.policy_env(date)
+    info = env.dag_info(date)
+    existing = set(info["nodes"]) | set(functions) | set(TYPES_INPUT_VARIABLES)
+    out = []
+    for n in info["computed"]:
+        m = _UNIT.match(n)
+        if m and n in functions:
+            for u in "ymwd":
+                cand = f"{m.group('base')}{u}{m.group('g') or ''}"
+                if u != m.group("u") and cand not in existing:
+                    out.append(cand)
+    return sorted(set(out))
+
+
 def strategy(date, ctx):
     nodes = env.all_nodes(date)
     units, sums = derived_names(date)
+    rule_units = rule_unit_variants(date)
 
     @st.composite
     def s(draw):
@@ -77,6 +98,8 @@ def strategy(date, ctx):
             "as_dict": draw(st.booleans()),
             "extra": draw(st.sets(st.sampled_from(["zz_a", "zz_b_m", "zz_c_hh", "zz_d_y_hh"]), max_size=3)),
             "rounding": draw(st.sampled_from([True, True, False])),
+            "index": draw(st.sampled_from(["range", "range", "shuffled", "strings", "offset"])),
+            "extra_derived": sorted(draw(st.sets(st.sampled_from(rule_units), max_size=2))) if rule_units else [],
         }
         opts["extra"] = sorted(opts["extra"])
         return _Case((pop, S, opts))
@@ -84,9 +107,23 @@ def strategy(date, ctx):
     return s()
 
 
-def with_extra(df, extra):
+def with_extra(df, extra, derived=(), index="range"):
     out = df.copy()
     n = len(out)
+    # columns named like a derived time-unit variant of a rule, with arbitrary values: no target of
+    # the DAG consumes them, so they are "additional unused columns"
+    for i, c in enumerate(derived):
+        g = env.group_of(c)
+        if g == "hh":
+            out[c] = out["hh_id"].astype("float64") * 7.0 + 1000.0 + i
+        elif g is None:
+            out[c] = np.arange(n, dtype="float64") * 11.5 + 500.0 + i
+    if index == "shuffled":
+        out.index = np.random.RandomState(n).permutation(n)
+    elif index == "strings":
+        out.index = [f"r{v}" for v in np.random.RandomState(n + 1).permutation(n)]
+    elif index == "offset":
+        out.index = np.arange(n) + 5
     for i, c in enumerate(extra):
         if c.endswith("_hh"):
             out[c] = out["hh_id"].astype("float64") * 1.5 + i
@@ -100,7 +137,7 @@ def check(df, date, S, opts):
     fails = []
     base_targets = sorted(set(nodes) | set(S))
     base = env.simulate(df, date, targets=base_targets, rounding=opts["rounding"])
-    data = with_extra(df, opts["extra"])
+    data = with_extra(df, opts["extra"], [c for c in opts.get("extra_derived", []) if c not in S], opts.get("index", "range"))
     arg = {c: data[c] for c in data.columns} if opts["as_dict"] else data
     try:
         res = env.simulate(arg, date, targets=list(S), rounding=opts["rounding"], debug=opts["debug"],
@@ -118,7 +155,7 @@ def check(df, date, S, opts):
                                   f"missing={sorted(expected_cols - set(res.columns))[:5]} extra={sorted(set(res.columns) - expected_cols)[:5]}"))
     if opts["debug"]:
         for c in ("p_id", "hh_id"):
-            if c in res.columns and res[c].tolist() != df[c].tolist():
+            if c in res.columns and (res[c].isna().any() or res[c].tolist() != df[c].tolist()):
                 fails.append(core.Failure("row-order", f"{date}: debug output column {c} is not in input order"))
     common = [t for t in S if t in res.columns]
     key = np.arange(len(df))
